@@ -6,8 +6,9 @@ Mechanism A (universe export):
    and exports per value: the value, its Eq class, its don't-care partners, and what the scheme AS CODED
    does (not total / key classes) together with CODED_COLLISION / CODED_SPLIT lines.
 2. Two child interpreters with different PYTHONHASHSEED materialise every value as a real Python object
-   (twice, independently), call pipefunc.cache.to_hashable, check hashability, serialise the key
-   canonically, compare every key with every key, and drive `memoize`, a cached Pipeline call and a cached
+   (twice, independently; encoder attributes of the abstract value - insertion order, memory layout of an array,
+   RangeIndex / materialised Index of a pandas object - are honoured and checked by the round trip), call
+   pipefunc.cache.to_hashable, check hashability, serialise the key canonically, compare every key with every key, and drive `memoize`, a cached Pipeline call and a cached
    Pipeline.map with the same values.
 3. The parent compares: totality; the observed key-equality pattern with TLC's Eq pattern for ALL ordered
    pairs (up to DontCare); the two interpreters' serialisations (natively handled types); and "a stored
@@ -1611,8 +1612,9 @@ def run(ctx) -> None:
                 % (depth, *seeds))
     ctx.assumptions = ["TLC and the value encoder (abstract value -> Python object; round trip checked per value) are trusted",
                        "Python's == on keys is what the caches use (dict lookup: also hash equality is checked)",
-                       "encoder attributes (set / frozenset / dict insertion order, array memory layout) are not part of a value: "
-                       "Eq ignores them, keys must too",
+                       "encoder attributes (set / frozenset / dict insertion order, array memory layout, row / column labels of a "
+                       "pandas object carried by a RangeIndex or by a materialised Index) are not part of a value: "
+                       "Eq ignores them, keys must too; the labels themselves (any start / step of a RangeIndex) are part of it",
                        "don't-care (either outcome accepted): numerically equal scalars of different numeric type; "
                        "deque.maxlen / defaultdict.default_factory / array typecode; Eq objects keyed by pickle whose "
                        "representation differs; pickle bytes of as-is frozensets (DiskCache file names)",
